@@ -138,6 +138,154 @@ class ChainSplit(ast.NodeTransformer):
         return node
 
 
+class Commute(ast.NodeTransformer):
+    """a * b -> b * a ;  a == b -> b == a ;  a != b -> b != a"""
+
+    def visit_BinOp(self, node):
+        self.generic_visit(node)
+        if isinstance(node.op, ast.Mult):
+            return ast.BinOp(left=node.right, op=node.op, right=node.left)
+        return node
+
+    def visit_Compare(self, node):
+        self.generic_visit(node)
+        if len(node.ops) == 1 and isinstance(node.ops[0], (ast.Eq, ast.NotEq)):
+            return ast.Compare(left=node.comparators[0], ops=node.ops, comparators=[node.left])
+        return node
+
+
+class ExtractReturn(ast.NodeTransformer):
+    """return <expr>  ->  result_ = <expr>; return result_   (for calls, arithmetic, comparisons, conditionals, displays)"""
+
+    def _block(self, stmts):
+        out = []
+        for st in stmts:
+            if isinstance(st, ast.Return) and isinstance(st.value, (ast.Call, ast.BinOp, ast.Compare, ast.IfExp, ast.Dict, ast.BoolOp, ast.Subscript)):
+                out.append(ast.Assign(targets=[ast.Name(id="result_", ctx=ast.Store())], value=st.value, lineno=st.lineno))
+                out.append(ast.Return(value=ast.Name(id="result_", ctx=ast.Load())))
+            else:
+                out.append(st)
+        return out
+
+    def generic_visit(self, node):
+        super().generic_visit(node)
+        for f in ("body", "orelse", "finalbody"):
+            v = getattr(node, f, None)
+            if isinstance(v, list) and v and isinstance(v[0], ast.stmt):
+                setattr(node, f, self._block(v))
+        return node
+
+    def visit_Lambda(self, node):
+        return node
+
+
+class NotNorm(ast.NodeTransformer):
+    """not a == b -> a != b ; a != b -> not a == b ; x is not None -> not x is None ; not x is None -> x is not None"""
+
+    def visit_UnaryOp(self, node):
+        if isinstance(node.op, ast.Not) and isinstance(node.operand, ast.Compare) and len(node.operand.ops) == 1:
+            c = node.operand
+            inv = {ast.Eq: ast.NotEq, ast.NotEq: ast.Eq, ast.Is: ast.IsNot, ast.IsNot: ast.Is, ast.In: ast.NotIn, ast.NotIn: ast.In}
+            if type(c.ops[0]) in inv:
+                self.generic_visit(c)
+                return ast.Compare(left=c.left, ops=[inv[type(c.ops[0])]()], comparators=c.comparators)
+        self.generic_visit(node)
+        return node
+
+    def visit_Compare(self, node):
+        self.generic_visit(node)
+        inv = {ast.NotEq: ast.Eq, ast.IsNot: ast.Is, ast.NotIn: ast.In}
+        if len(node.ops) == 1 and type(node.ops[0]) in inv:
+            return ast.UnaryOp(op=ast.Not(), operand=ast.Compare(left=node.left, ops=[inv[type(node.ops[0])]()], comparators=node.comparators))
+        return node
+
+
+class Tern2If(ast.NodeTransformer):
+    """v = a if c else b  ->  if c: v = a  else: v = b   (plain name targets)"""
+
+    def _block(self, stmts):
+        out = []
+        for st in stmts:
+            if isinstance(st, ast.Assign) and len(st.targets) == 1 and isinstance(st.targets[0], ast.Name) and isinstance(st.value, ast.IfExp):
+                import copy
+
+                out.append(ast.If(test=st.value.test, body=[ast.Assign(targets=[copy.deepcopy(st.targets[0])], value=st.value.body, lineno=st.lineno)], orelse=[ast.Assign(targets=[copy.deepcopy(st.targets[0])], value=st.value.orelse, lineno=st.lineno)]))
+            else:
+                out.append(st)
+        return out
+
+    def generic_visit(self, node):
+        super().generic_visit(node)
+        for f in ("body", "orelse", "finalbody"):
+            v = getattr(node, f, None)
+            if isinstance(v, list) and v and isinstance(v[0], ast.stmt):
+                setattr(node, f, self._block(v))
+        return node
+
+
+def private_param_names(srcs):
+    """{function name: {param: new}} for every private (single underscore) function / method name defined in the tree; the same map is
+    applied to every definition and every keyword call of that name, so overrides and callers stay consistent"""
+    mp = {}
+    for src in srcs:
+        for n in ast.walk(ast.parse(src)):
+            if isinstance(n, (ast.FunctionDef, ast.AsyncFunctionDef)) and n.name.startswith("_") and not n.name.startswith("__"):
+                for a in n.args.args + n.args.kwonlyargs:
+                    if a.arg not in ("self", "cls"):
+                        mp.setdefault(n.name, {})[a.arg] = a.arg + "_p"
+    return mp
+
+
+class ParamRename(ast.NodeTransformer):
+    def __init__(self, mp):
+        self.mp = mp
+
+    def visit_FunctionDef(self, node):
+        ren = self.mp.get(node.name) if node.name.startswith("_") and not node.name.startswith("__") else None
+        if ren:
+            for a in node.args.args + node.args.kwonlyargs:
+                if a.arg in ren:
+                    a.arg = ren[a.arg]
+            _RenameBody(ren).apply(node)
+        self.generic_visit(node)
+        return node
+
+    def visit_Call(self, node):
+        self.generic_visit(node)
+        nm = node.func.attr if isinstance(node.func, ast.Attribute) else node.func.id if isinstance(node.func, ast.Name) else None
+        if nm in self.mp:
+            for k in node.keywords:
+                if k.arg in self.mp[nm]:
+                    k.arg = self.mp[nm][k.arg]
+        return node
+
+
+class _RenameBody:
+    def __init__(self, ren):
+        self.ren = ren
+
+    def apply(self, fn):
+        for d in fn.args.defaults + fn.args.kw_defaults:
+            pass
+        for st in fn.body:
+            self._go(st, set())
+
+    def _go(self, node, shadow):
+        if isinstance(node, (ast.FunctionDef, ast.AsyncFunctionDef, ast.Lambda)):
+            inner = {a.arg for a in node.args.args + node.args.kwonlyargs}
+            body = node.body if isinstance(node.body, list) else [node.body]
+            for c in body:
+                self._go(c, shadow | inner)
+            return
+        if isinstance(node, ast.Name) and node.id in self.ren and node.id not in shadow:
+            node.id = self.ren[node.id]
+        for c in ast.iter_child_nodes(node):
+            self._go(c, shadow)
+
+
+PARAM_MAP = {}
+
+
 def transform(src, mode):
     tree = ast.parse(src)
     if mode == "rename":
@@ -150,6 +298,16 @@ def transform(src, mode):
         tree = ElseSwap().visit(tree)
     elif mode == "chainsplit":
         tree = ChainSplit().visit(tree)
+    elif mode == "commute":
+        tree = Commute().visit(tree)
+    elif mode == "extractret":
+        tree = ExtractReturn().visit(tree)
+    elif mode == "notnorm":
+        tree = NotNorm().visit(tree)
+    elif mode == "tern2if":
+        tree = Tern2If().visit(tree)
+    elif mode == "paramrename":
+        tree = ParamRename(PARAM_MAP).visit(tree)
     ast.fix_missing_locations(tree)
     return ast.unparse(tree) + "\n"
 
@@ -190,8 +348,14 @@ def main():
     ap.add_argument("--props", default="")
     ap.add_argument("--per-file", action="store_true")
     a = ap.parse_args()
-    modes = ["rename", "mirror", "reformat", "augexpand", "elseswap", "chainsplit"] if a.mode == "all" else a.mode.split(",")
+    modes = ["rename", "mirror", "reformat", "augexpand", "elseswap", "chainsplit", "commute", "extractret", "notnorm", "tern2if", "paramrename"] if a.mode == "all" else a.mode.split(",")
     props = a.props.split(",") if a.props else PROPS
+    srcs = []
+    for root, _, files in os.walk(os.path.join(REPO, "hexital")):
+        for f in files:
+            if f.endswith(".py"):
+                srcs.append(open(os.path.join(root, f)).read())
+    PARAM_MAP.update(private_param_names(srcs))
     jobs = []
     for m in modes:
         if a.per_file:
